@@ -31,6 +31,54 @@ def eMapping (m : Mapping) : Json :=
 def ePath (r : RPos) : Json :=
   Json.arr (r.path.map (fun e => Json.arr #[jn e.index, jn e.pos])).toArray
 
+/-! JSON <-> J (library wire format) -/
+def utf16Encode (s : String) : List Nat :=
+  s.toList.flatMap (fun c =>
+    let v := c.toNat
+    if v < 0x10000 then [v] else
+      let v' := v - 0x10000
+      [0xD800 + v' / 0x400, 0xDC00 + v' % 0x400])
+
+def utf16Decode : List Nat → String
+  | [] => ""
+  | a :: b :: rest =>
+    if 0xD800 ≤ a && a < 0xDC00 && 0xDC00 ≤ b && b < 0xE000 then
+      String.singleton (Char.ofNat (0x10000 + (a - 0xD800) * 0x400 + (b - 0xDC00))) ++ utf16Decode rest
+    else String.singleton (Char.ofNat a) ++ utf16Decode (b :: rest)
+  | [a] => String.singleton (Char.ofNat a)
+
+partial def jOfJson (key : String) : Json → J
+  | .null => .null
+  | .bool b => if key == "value" then .raw (if b then "true" else "false") else .bool b
+  | .num n =>
+    if key == "value" then .raw (Json.num n).compress else
+    match (Json.num n).getInt? with
+    | .ok i => .num i
+    | .error _ => .raw (Json.num n).compress
+  | .str x => if key == "value" then .raw (Json.str x).compress else if key == "text" then .text (utf16Encode x) else .str x
+  | .arr a => if key == "value" then .raw (Json.arr a).compress else .arr (a.toList.map (jOfJson ""))
+  | .obj kv =>
+    if key == "value" then .raw (Json.obj kv).compress
+    else if key == "attrs" then .obj (kv.toList.map (fun (k, v) => (k, J.raw v.compress)))
+    else .obj (kv.toList.map (fun (k, v) => (k, jOfJson k v)))
+
+def jOfJsonTop (key : String) (j : Json) : J :=
+  match key, j with
+  | "value", .null => .raw "null"
+  | _, _ => jOfJson key j
+
+partial def jsonOfJ : J → Json
+  | .null => .null
+  | .bool b => .bool b
+  | .num n => Json.num (Lean.JsonNumber.fromInt n)
+  | .str x => .str x
+  | .text u => .str (utf16Decode u)
+  | .raw x => match Json.parse x with
+    | .ok v => v
+    | .error _ => .str ("<unparsable " ++ x ++ ">")
+  | .arr l => .arr (l.map jsonOfJ).toArray
+  | .obj kv => Json.mkObj (kv.map (fun (k, v) => (k, jsonOfJ v)))
+
 partial def reToLean : RE → String
   | .eps => "RE.eps"
   | .sym t => s!"(RE.sym {t})"
@@ -298,6 +346,36 @@ def handle (st : St) (j : Json) : D (St × Json) := do
     match specParse table expr with
     | .error _ => return (st, eErr .valueError)
     | .ok r => return (st, ok (Json.arr (ws.map (fun w => Json.bool (RE.rmatch r w))).toArray))
+  -- ---------------- C05: JSON forms
+  | "toJson" =>
+    let S ← getSchema st j
+    let k ← str (← field j "k")
+    let v ← field j "v"
+    match k with
+    | "node" => return (st, ok (jsonOfJ (S.nodeToJ (← node v))))
+    | "frag" => return (st, ok (jsonOfJ (S.fragToJ (← frag v))))
+    | "slice" => return (st, ok (jsonOfJ (S.sliceToJ (← slice v))))
+    | "mark" => return (st, ok (jsonOfJ (S.markToJ (← mark v))))
+    | "step" => return (st, ok (jsonOfJ (S.stepToJ (← step v))))
+    | _ => throw "bad toJson kind"
+  | "fromJson" =>
+    let S ← getSchema st j
+    let k ← str (← field j "k")
+    let v ← field j "v"
+    -- "value" fields of steps: a JSON null must stay the raw value "null"
+    let fixValue := fun (x : J) => match x with
+      | .obj kv => J.obj (kv.map (fun (kk, vv) => if kk == "value" then (kk, match vv with
+          | .null => J.raw "null"
+          | o => o) else (kk, vv)))
+      | o => o
+    let jj := fixValue (jOfJson "" v)
+    match k with
+    | "node" => return (st, eRes eNode (S.nodeOfJ 100000 jj))
+    | "frag" => return (st, eRes eFrag (S.fragOfJ 100000 (some jj)))
+    | "slice" => return (st, eRes eSlice (S.sliceOfJ 100000 (some jj)))
+    | "mark" => return (st, eRes eMark (S.markOfJ jj))
+    | "step" => return (st, eRes eStep (S.stepOfJ 100000 jj))
+    | _ => throw "bad fromJson kind"
   | "toks" =>
     let d ← node (← field j "doc")
     return (st, ok (jn d.toks.length))
